@@ -27,6 +27,18 @@ Proof.
     destruct (prefix_eqb c key); [exact I|apply L].
 Qed.
 
+Definition fop_op (x : fop) : op := match x with FOp _ o => o end.
+
+Lemma lc_fstep : forall s d x, lc s d -> lc (apply_fop true s x) (dstep d (fop_op x)).
+Proof.
+  intros s d [force o] L. destruct force; [|now apply lc_step].
+  destruct o as [c v|c v|n v|id cs]; cbn [apply_fop fop_op]; try (now apply lc_step); intros key; cbn [dstep d_blocks];
+    rewrite (fr_cache _ _ (frame_flush _)).
+  - rewrite (fr_cache _ _ (frame_on_node_forced true s n v)). apply L.
+  - assert (C : s_cache (on_wep_forced s id cs) = s_cache s) by (apply (@keepf_on_wep_forced _ _ ri_block s_cache); auto).
+    rewrite C. apply L.
+Qed.
+
 Lemma block_link : forall BK s d, cc BK s -> cc' s -> lc s d -> ds d -> forall k, ri_block (tget (s_trie s) k) = block_at d k.
 Proof.
   intros BK s d CC H' L (NDB & _ & OKB) k.
@@ -95,6 +107,39 @@ Section Sep.
     - exact HL.
     - exact H32.
     - exact N.
+  Qed.
+
+  Lemma joint_fstep : forall s d x, joint s d -> fhop_ok BK x -> dop_ok (fop_op x) -> joint (apply_fop true s x) (dstep d (fop_op x)).
+  Proof.
+    intros s d x [I C H N P W L D] OK DOK. constructor.
+    - now apply inv_fstep.
+    - now apply (cc'_fstep BK sep).
+    - now apply hs_fstep.
+    - destruct x; now apply lk_n_fstep.
+    - destruct x; now apply lk_p_fstep.
+    - destruct x; apply lk_w_fstep; [apply I|exact W].
+    - now apply lc_fstep.
+    - now apply ds_step.
+  Qed.
+
+  Lemma joint_fhistory : forall xs, Forall (fhop_ok BK) xs -> Forall (fun x => dop_ok (fop_op x)) xs ->
+    joint (runf true xs) (state_of (map fop_op xs)).
+  Proof.
+    intros xs H1 H2. unfold runf, state_of. generalize joint_init. generalize st0 d0. revert H2.
+    induction H1 as [|x xs Hx Hxs IH]; intros H2 s d J; [exact J|]. inversion H2; subst. cbn [fold_left map].
+    apply IH; [assumption|]. now apply joint_fstep.
+  Qed.
+
+  (* the same with updates forced past the "no change" tests (dual-stack instances) *)
+  Theorem order_independent_f : forall xs, Forall (fhop_ok BK) xs -> Forall (fun x => dop_ok (fop_op x)) xs ->
+    forall k, wfp 32 k ->
+      let d := state_of (map fop_op xs) in
+      (ri_valid (entry d k) = false -> aget prefix_eqb (s_out (runf true xs)) k = None)
+      /\ (hosts_at d k = [] -> (block_at d k <> None \/ wep_at d k <> O) ->
+          aget prefix_eqb (s_out (runf true xs)) k = desired d k).
+  Proof.
+    intros xs H1 H2 k W d. pose proof (joint_fhistory xs H1 H2) as J.
+    exact (out_is_desired _ _ (joint_link _ _ J) (i_out _ _ (j_inv _ _ J)) k W).
   Qed.
 
   (* c43_order_independent *)
